@@ -5,7 +5,7 @@ from fractions import Fraction
 from ..astutil import kids, strip, walk, callee_ref, render, loc, int_value
 from ..frontend import AnalysisBroken
 from ..report import Report
-from ..vals import FuncCtx
+from ..vals import FuncCtx, is_assert_stmt
 from ..engines.deg import DegEval, ANY
 from .. import inv
 from . import common
@@ -283,7 +283,22 @@ def rules(rep, m):
         r4.instance("%s: stores to the target: %s" % (f.name, [t for t, n_ in tstores]))
         whole = [t for t, n_ in tstores if t == "*" + tgt]
         partial = [t for t, n_ in tstores if t != "*" + tgt]
-        if partial or not whole:
+        # member stores are as good as one whole-record store when every operand field has been read before the first of
+        # them (document order in a loop-free body): the operands may be the target
+        late_reads = True
+        if partial and not any(x["kind"] in ("ForStmt", "WhileStmt", "DoStmt", "GotoStmt") and not is_assert_stmt(x)
+                               for x in walk(f.body)):
+            order = {id(x): i for i, x in enumerate(walk(f.body))}
+            first = min(order[id(n_)] for t, n_ in tstores)
+            ops = {f.params[1]["name"], f.params[2]["name"]}
+            late_reads = any(x["kind"] == "MemberExpr" and order[id(x)] > first and
+                             strip(kids(x)[0], casts=True)["kind"] == "DeclRefExpr" and
+                             strip(kids(x)[0], casts=True)["ref"].get("name") in ops for x in walk(f.body))
+            # ... and calls that receive an operand after that point could read it too
+            late_reads = late_reads or any(
+                x["kind"] == "CallExpr" and order[id(x)] > first and
+                any(y["kind"] == "DeclRefExpr" and y.get("ref", {}).get("name") in ops for y in walk(x)) for x in walk(f.body))
+        if (partial and late_reads) or not tstores:
             rep.finding(r4, f.name, "merge:alias", "merge writes target fields (%s) before all operand fields were read: wrong "
                         "result when the target is one of the operands" % partial, where=m.rel(f.where))
             r4.fail()
@@ -335,7 +350,7 @@ def rules(rep, m):
             rop = {">": "<", "<": ">"}[op]
             for l, r, k, n_ in inv.stores(f):
                 lc = cx.canon(l)
-                if not lc.endswith("->" + field) or r is None:
+                if not lc.endswith(("->" + field, "." + field)) or r is None:
                     continue
                 v = cx.canon(r)
                 if re.fullmatch(r"\(\(%s %s (.+)\) \? %s : \1\)" % (xn, op, xn), v) or \
@@ -475,10 +490,10 @@ def rules(rep, m):
         xn = f.params[1]["name"]
         counts = []
         for y in walk(f.body):
-            if y["kind"] == "UnaryOperator" and y.get("opcode") == "++" and cx.canon(kids(y)[0]).endswith("->count"):
+            if y["kind"] == "UnaryOperator" and y.get("opcode") == "++" and cx.canon(kids(y)[0]).endswith(("->count", ".count")):
                 counts.append(y)
         for l, r_, k_, n_ in inv.stores(f):
-            if cx.canon(l).endswith("->count") and k_ in ("=", "+=") and not any(n_ is c_ for c_ in counts):
+            if cx.canon(l).endswith(("->count", ".count")) and k_ in ("=", "+=") and not any(n_ is c_ for c_ in counts):
                 counts.append(n_)
 
         def updates(field, op):
@@ -486,7 +501,7 @@ def rules(rep, m):
             out = []
             for l, r_, k_, n_ in inv.stores(f):
                 lc = cx.canon(l)
-                if not lc.endswith("->" + field) or r_ is None:
+                if not lc.endswith(("->" + field, "." + field)) or r_ is None:
                     continue
                 v = cx.canon(r_)
                 own = ("(%s %s %s)" % (xn, op, lc), "(%s %s %s)" % (lc, rop, xn))
@@ -494,7 +509,7 @@ def rules(rep, m):
                 tern = re.fullmatch(r"\(\(%s %s (.+)\) \? %s : \1\)" % (xn, op, xn), v) or \
                     re.fullmatch(r"\(\((.+) %s %s\) \? %s : \1\)" % (rop, xn, xn), v)
                 guarded = v == xn and len(conds) < len(inv.dominating_conditions(cx, f, n_))
-                first = v == xn and any(re.fullmatch(r"\(.*->count == 0\)|!\(.*->count (!=|>) 0\)", cd) for cd in conds)
+                first = v == xn and any(re.fullmatch(r"\(.*(->|\.)count == 0\)|!\(.*(->|\.)count (!=|>) 0\)", cd) for cd in conds)
                 if tern or guarded or first:
                     out.append((conds, n_))
             return out
